@@ -465,6 +465,75 @@ theorem formParameters_last_pass {α : Type} (passes : List (List α)) (last : L
   rw [this]
   simp [loopResult, List.foldl_append]
 
+theorem dropNullable_idem {V : Type} (s : Sch V) : dropNullable (dropNullable s) = dropNullable s := by
+  refine (Sch.induct (P := fun s => dropNullable (dropNullable s) = dropNullable s)
+    (Q := fun ks => dropNullableKids (dropNullableKids ks) = dropNullableKids ks) ?_ ?_ ?_ ?_).1 s
+  · intro k n; simp [dropNullable]
+  · intro hd kids ih; simp [dropNullable, ih]
+  · simp [dropNullableKids]
+  · intro sl c rest ihc ihr
+    by_cases hs : sl = Slot.addl
+    · simp [dropNullableKids, hs, ihr]
+    · simp [dropNullableKids, hs, ihc, ihr]
+
+theorem kidItems_dropItems {V : Type} (kids : List (Slot × Sch V)) :
+    kidItems (kids.map (fun (sc : Slot × Sch V) => (sc.1, if sc.1 = Slot.items then dropNullable sc.2 else sc.2))) =
+    (kidItems kids).map dropNullable := by
+  induction kids with
+  | nil => rfl
+  | cons a r ih =>
+    obtain ⟨sl, c⟩ := a
+    by_cases hs : sl = Slot.items
+    · simp [kidItems, hs]
+    · simp [kidItems, hs, ih]
+
+/-- a pass over a form field an earlier pass has visited reads what a second pass reads (FromV3SchemaRef's reset
+    of `nullable` is idempotent) -/
+theorem fromV3FormPropT_dropItems {V : Type} (tw : Bool) (bin R : List String) (name : String) (s : Sch V) :
+    fromV3FormPropT tw bin R name (dropItemsNullable s) = fromV3FormPropT true bin R name s := by
+  cases s with
+  | ref k n => simp [dropItemsNullable, fromV3FormPropT]
+  | node h kids =>
+    simp only [dropItemsNullable, fromV3FormPropT, kidItems_dropItems]
+    cases kidItems kids with
+    | none => simp
+    | some it => cases tw <;> simp [dropNullable_idem]
+
+theorem fromV3FormFields_dropItems {V : Type} (tw : Bool) (bin R : List String) (kids : List (Slot × Sch V)) :
+    fromV3FormFields tw bin R (kids.map (fun (sc : Slot × Sch V) => (sc.1, dropItemsNullable sc.2))) =
+    fromV3FormFields true bin R kids := by
+  induction kids with
+  | nil => rfl
+  | cons a r ih =>
+    obtain ⟨sl, c⟩ := a
+    simp only [fromV3FormFields] at ih ⊢
+    cases sl <;> simp [fromV3FormPropT_dropItems, ih]
+
+theorem formPasses_fold {V : Type} (bin R : List String) (n : Nat) :
+    ∀ (kids : List (Slot × Sch V)) (init : List (PRef2 V)),
+      (formPasses bin R (n + 1) kids).foldl (fun _ r => r) init = fromV3FormFields (decide (n + 1 ≥ 2)) bin R kids := by
+  induction n with
+  | zero => intro kids init; simp [formPasses]
+  | succ n ih =>
+    intro kids init
+    rw [formPasses, List.foldl_cons, ih]
+    rw [fromV3FormFields_dropItems]
+    simp
+
+/-- **the media-type loop of fromV3RequestBodies, any number of form media types** (a sequence of
+    FromV3RequestBodyFormData passes over one form schema object, each leaving `nullable` cleared on the items it
+    visited, combined by the code's own update statement of `formParameters`): the form parameters that come back are
+    those of one pass — each form field once — read from the schema as the first pass left it when there are two
+    or more passes. This is what `fromV3Body` uses (`fromV3FormFields (formTwice mimes)`). -/
+theorem formLoop_any_number_of_passes {V : Type} (bin R : List String) (n : Nat) (kids : List (Slot × Sch V)) :
+    loopResult (updatesOf KinModel.Gen.requestBodiesUpdates "formParameters") (formPasses bin R (n + 1) kids) =
+    fromV3FormFields (decide (n + 1 ≥ 2)) bin R kids := by
+  rw [requestBodiesUpdates_is_code]
+  have : updatesOf requestBodiesUpdates "formParameters" = ["replace:FromV3RequestBodyFormData"] := by decide
+  rw [this]
+  simp only [loopResult, beq_self_eq_true, if_true]
+  exact formPasses_fold bin R n kids []
+
 /-- witness (F-C17-16, FormItemsNullableLost): an array form parameter whose items carry `x-nullable: true`, under
     both form media types — the form field kept by fromV3RequestBodies is the one of the second pass, whose items
     have lost `x-nullable`; under one form media type they keep it -/
